@@ -80,7 +80,10 @@ static void cba_store(const long long *t) {
     uint16_t odd = (uint16_t)(cba_gen + 1);
     if (pwrite(cba_fd, &odd, 2, 14) != 2) abort();
     if (pwrite(cba_fd, rec, 56, 16) != 56) abort();
-    cba_gen = (cba_gen >= 65000) ? 2 : (uint16_t)(cba_gen + 2);
+    /* even, non-zero, different from the current one, not growing steadily: a client re-reads whenever the
+       generation differs from the one it cached, larger or smaller */
+    { uint32_t k = cba_gen / 2; uint16_t g2 = (uint16_t)(((k * 7919u + 13u) % 32767u + 1u) * 2u);
+      cba_gen = (g2 != cba_gen) ? g2 : (g2 >= 65534 ? 2 : (uint16_t)(g2 + 2)); }
     if (pwrite(cba_fd, &cba_gen, 2, 14) != 2) abort();
 }
 
